@@ -45,6 +45,10 @@ public:
   inline RestartReader() {}
   template <typename T> T read() {
     __verif_check(verif_tape_rpos < verif_tape_wpos);
+#ifdef VERIF_TAPE_FREE
+    // free-tape mode (idempotence harnesses): an entry that nobody wrote (tag 0) takes the type of its first reader
+    if (verif_tape_tag[verif_tape_rpos] == 0) verif_tape_tag[verif_tape_rpos] = verif_tag<T>::v;
+#endif
     __verif_check(verif_tape_tag[verif_tape_rpos] == verif_tag<T>::v);       // same type, same order as written
     T r = get((T *)0, verif_tape_rpos);
     ++verif_tape_rpos;
